@@ -183,7 +183,7 @@ def _parse_call_name(text):
     else:
         segs = split_path(t)
     # trailing generic segment(s)
-    while segs and segs[-1].startswith('<') and not segs[-1].startswith('<impl'):
+    while len(segs) > 1 and segs[-1].startswith('<'):
         ci.generics = split_top(segs[-1][1:-1])
         segs = segs[:-1]
     ci.method = segs[-1] if segs else None
@@ -232,6 +232,9 @@ class DefIndex:
 
     def __init__(self, module, repo):
         self.module = module
+        for _f in list(module.fns.values()) + list(module.consts.values()):
+            _f.module = module
+        module.defindex = self
         self.by_method = {}
         self.cache = {}
         self.pty_cache = {}
@@ -333,7 +336,8 @@ class Frame:
 
 
 class Machine:
-    def __init__(self, module, adts, contracts, ctx, repo='/repo', overrides=None, max_steps=200000, defindex=None):
+    def __init__(self, module, adts, contracts, ctx, repo='/repo', overrides=None, max_steps=200000, defindex=None, extra_modules=()):
+        self.extra_modules = list(extra_modules)   # modules whose functions may be entered when neither the calling crate nor a contract knows the callee
         self.module = module
         self.adts = adts
         self.contracts = contracts
@@ -353,10 +357,25 @@ class Machine:
     def load(self, ref):
         if not isinstance(ref, Ref):
             return ref
-        v = ref.frame.locals[ref.local]
+        try:
+            v = ref.frame.locals[ref.local]
+        except KeyError:
+            v = self._zst_local(ref.frame, ref.local)
         for p in ref.proj:
             v = self._project(v, p)
         return v
+
+    def _zst_local(self, frame, n):
+        """zero-sized locals (capture-less closures, unit structs) are never initialised by MIR statements"""
+        ty = getattr(frame, 'fn', None) and frame.fn.locals.get(n)
+        if ty and ty.startswith('{closure@'):
+            v = Agg(head_ident(ty), None, (), ())
+            frame.locals[n] = v
+            return v
+        if ty == '()':
+            frame.locals[n] = UNIT
+            return UNIT
+        raise EncoderGap('read of unassigned _%s in %s' % (n, getattr(getattr(frame, 'fn', None), 'name', '?')))
 
     def store(self, ref, val):
         root = ref.frame.locals.get(ref.local)
@@ -444,7 +463,7 @@ class Machine:
             try:
                 return frame.locals[place.local]
             except KeyError:
-                raise EncoderGap('read of unassigned _%d in %s' % (place.local, frame.fn.name))
+                return self._zst_local(frame, place.local)
         return self.load(self.place_ref(frame, place))
 
     def write_place(self, frame, place, val):
@@ -522,7 +541,7 @@ class Machine:
         if k == 'promoted':
             base = frame.fn.name
             name = '%s::promoted[%d]' % (base, c.val)
-            cf = self.module.consts.get(name)
+            cf = getattr(frame.fn, 'module', self.module).consts.get(name)
             if cf is None:
                 raise EncoderGap('promoted const %s not found' % name)
             return self.eval_const_body(cf)
@@ -543,7 +562,7 @@ class Machine:
         if h is not None:
             return h
         # in-crate named const
-        for name, cf in self.module.consts.items():
+        for name, cf in getattr(frame.fn, 'module', self.module).consts.items():
             if name == text or name.endswith('::' + text) or text.endswith('::' + name):
                 return self.eval_const_body(cf)
         # unit variant / unit struct used as const
@@ -804,6 +823,14 @@ class Machine:
             return lite(A | B)
         if op == 'BitXor':
             return lite(A ^ B)
+        if op == 'Div':
+            return lite(A / B if signed else z3.UDiv(A, B))
+        if op == 'Rem':
+            return lite(z3.SRem(A, B) if signed else z3.URem(A, B))
+        if op in ('Shl', 'ShlUnchecked'):
+            return lite(A << B)
+        if op in ('Shr', 'ShrUnchecked'):
+            return lite(A >> B if signed else z3.LShR(A, B))
         raise EncoderGap('symbolic binop %s' % op)
 
     @staticmethod
@@ -1047,18 +1074,30 @@ class Machine:
         # closure / fn-trait calls
         if ci.trait and head_ident(ci.trait) in ('Fn', 'FnMut', 'FnOnce') and ci.method in ('call', 'call_mut', 'call_once'):
             return self.call_value(args[0], list(args[1].fields) if isinstance(args[1], Agg) and args[1].ty == 'tuple' else args[1:])
-        cached = self.defs.cache.get(func)
+        defs = getattr(getattr(frame.fn, 'module', self.module), 'defindex', self.defs)
+        cached = defs.cache.get(func)
         if cached is None:
-            fn = self.defs.resolve(ci)
+            fn = defs.resolve(ci)
             c = None
             if fn is None:
                 c = self.contracts.lookup(ci)
                 if c is None:
-                    raise EncoderGap('no contract for foreign call `%s`' % func)
-            cached = self.defs.cache[func] = (fn, c, getattr(ci, 'key', None))
+                    for em in self.extra_modules:
+                        if em is defs.module:
+                            continue
+                        fn = em.defindex.resolve(ci)
+                        if fn is not None:
+                            break
+                    if fn is None:
+                        raise EncoderGap('no contract for foreign call `%s`' % func)
+            cached = defs.cache[func] = (fn, c, getattr(ci, 'key', None))
         fn, c, key = cached
         if fn is not None:
             return self.call_fn(fn, args)
+        # the cache stores the resolution (key); the contract itself comes from this machine's table (harness-local forks)
+        c = self.contracts.table.get(key, c)
+        if c is None:
+            raise EncoderGap('no contract for foreign call `%s`' % func)
         ci.key = key
         self.used_contracts[c.__name__] = self.used_contracts.get(c.__name__, 0) + 1
         try:
@@ -1074,6 +1113,11 @@ class Machine:
         if isinstance(fv, Agg) and fv.ty.startswith('closure@'):
             loc = fv.ty[len('closure@'):]
             cf = self.module.closures_by_loc.get(loc)
+            if cf is None:
+                for em in self.extra_modules:
+                    cf = em.closures_by_loc.get(loc)
+                    if cf is not None:
+                        break
             if cf is None:
                 raise EncoderGap('closure body for %s not found' % loc)
             cf.ensure_parsed()
